@@ -351,9 +351,9 @@ pub fn run(ctx: &Ctx, rep: &mut Report) {
         }
     }
     rep.absorb("regression", crate::util::SubOutcome { stats: st, failures, wall_s: started.elapsed().as_secs_f64() });
-    let n = ctx.tier.pick(300_000u64, 20_000_000);
+    let n = ctx.tier.pick(3_000_000u64, 40_000_000);
     rep.absorb("derive", run_sharded("C14", "derive", ctx.seed, n, 64, strategy, check, to_json, signature));
-    let n = ctx.tier.pick(300u64, 5_000);
+    let n = ctx.tier.pick(2_000u64, 20_000);
     rep.absorb(
         "roundtrip",
         run_sharded(
